@@ -83,7 +83,7 @@ var fallbackPkgs = map[string]bool{
 	"unicode": true, "cmp": true, "fmt": true, "maps": true, "math/bits": true,
 	"strconv": true, "iter": true, "internal/bytealg": true, "internal/stringslite": true,
 	"github.com/zclconf/go-cty/cty/function": false,
-	"errors": true,
+	"errors":                                 true,
 }
 
 // packages on the fallback list whose initialisers are not executed (they need reflection)
